@@ -332,3 +332,157 @@ def _is_param(cfg: CFG, name_node: ast.Name, pname: str) -> bool:
 
 def shape_tokens(reads: list[Read]) -> list[str]:
     return [r.token() for r in reads]
+
+
+# ---------------------------------------------------------------------------
+# match-statement label tables (compiler / decompiler dispatch)
+# ---------------------------------------------------------------------------
+
+def match_tables(fi: FunctionInfo) -> list[tuple[ast.Match, list[tuple[list, ast.match_case]]]]:
+    """All `match` statements in fi with, per case, the list of constant labels
+    (None for the wildcard)."""
+    out = []
+    for n in walk_no_nested(fi.node):
+        if isinstance(n, ast.Match):
+            cases = []
+            for c in n.cases:
+                cases.append((_pattern_labels(c.pattern), c))
+            out.append((n, cases))
+    return out
+
+
+def _pattern_labels(p) -> list:
+    if isinstance(p, ast.MatchValue) and isinstance(p.value, ast.Constant):
+        return [p.value.value]
+    if isinstance(p, ast.MatchOr):
+        out = []
+        for q in p.patterns:
+            out += _pattern_labels(q)
+        return out
+    if isinstance(p, ast.MatchAs) and p.pattern is None:
+        return [None]
+    if isinstance(p, ast.MatchSingleton):
+        return [p.value]
+    raise AnalysisError(f'unrecognised match pattern {ast.dump(p)[:60]}')
+
+
+# ---------------------------------------------------------------------------
+# Tape construction sites
+# ---------------------------------------------------------------------------
+
+class TapeSite:
+    """One `Tape(...)` construction with where it flows."""
+
+    def __init__(self, fi, node, call):
+        self.fi = fi
+        self.node = node          # CFG node holding the construction
+        self.call = call          # the ast.Call
+        self.var = None           # local variable it is bound to (if any)
+        self.roles = []           # [(role, cfg node, call)] role: exec operand plugin definition other
+        self.attr_stores = {}     # attr -> [(cfg node, value ast)]
+        self.kw = {k.arg: k.value for k in call.keywords if k.arg}
+        self.pos = list(call.args)
+
+    @property
+    def line(self):
+        return self.call.lineno
+
+    def role(self):
+        rs = {r for r, _, _ in self.roles}
+        for pref in ('exec', 'definition', 'operand', 'plugin'):
+            if pref in rs:
+                return pref
+        return 'other'
+
+    def field_expr(self, name: str, tape_fields: list[str]):
+        """The constructor expression for dataclass field `name` (keyword or positional)."""
+        if name in self.kw:
+            return self.kw[name]
+        if name in tape_fields:
+            i = tape_fields.index(name)
+            if i < len(self.pos):
+                return self.pos[i]
+        return None
+
+
+def tape_fields(world: World) -> list[str]:
+    cd = world.repo.module('classes').classes.get('Tape')
+    if cd is None:
+        raise AnalysisError('class Tape vanished')
+    out = []
+    for st in cd.body:
+        if isinstance(st, ast.AnnAssign) and isinstance(st.target, ast.Name):
+            out.append(st.target.id)
+    return out
+
+
+def tape_sites(world: World, fi: FunctionInfo) -> list[TapeSite]:
+    cfg = world.cfg(fi)
+    sites = []
+    for n, call in cfg.nodes_with_call(
+            lambda c: isinstance(c.func, ast.Name) and c.func.id == 'Tape'):
+        r = world.repo.resolve(fi.module.name, 'Tape')
+        if not isinstance(r, ClassRef):
+            continue
+        s = TapeSite(fi, n, call)
+        # direct argument of another call?
+        par = cfg.parent.get(id(call))
+        if isinstance(par, ast.Call) and call in par.args:
+            s.roles.append((_call_role(world, fi, par, par.args.index(call)), n, par))
+        elif isinstance(par, ast.Assign) and len(par.targets) == 1 and isinstance(par.targets[0], ast.Name):
+            s.var = par.targets[0].id
+        elif isinstance(par, ast.Assign) and len(par.targets) == 1 and isinstance(par.targets[0], ast.Subscript) \
+                and isinstance(par.targets[0].value, ast.Attribute) and par.targets[0].value.attr == 'definitions':
+            s.roles.append(('definition', n, par))
+        elif isinstance(par, ast.keyword):
+            s.roles.append(('other', n, par))
+        else:
+            s.roles.append(('other', n, par))
+        if s.var:
+            for m in cfg.nodes:
+                if m.ast is None or m.kind == 'except':
+                    continue
+                # is this def among the reaching defs of var at m?
+                uses = [x for x in ast.walk(m.ast if m.kind != 'for' else m.ast.iter)
+                        if isinstance(x, ast.Name) and x.id == s.var and isinstance(x.ctx, ast.Load)]
+                if not uses:
+                    continue
+                if n.id not in {d[0].id for d in cfg.defs_reaching(s.var, m)}:
+                    continue
+                for u in uses:
+                    p = cfg.parent.get(id(u))
+                    if isinstance(p, ast.Call) and u in p.args:
+                        s.roles.append((_call_role(world, fi, p, p.args.index(u)), m, p))
+                    elif isinstance(p, ast.Attribute) and isinstance(p.ctx, ast.Store):
+                        gp = cfg.parent.get(id(p))
+                        if isinstance(gp, ast.Assign):
+                            s.attr_stores.setdefault(p.attr, []).append((m, gp.value))
+                    elif isinstance(p, ast.Assign) and u is p.value:
+                        for t in p.targets:
+                            if isinstance(t, ast.Subscript) and isinstance(t.value, ast.Attribute) \
+                                    and t.value.attr == 'definitions':
+                                s.roles.append(('definition', m, p))
+                    elif isinstance(p, ast.Return):
+                        s.roles.append(('returned', m, p))
+                    elif isinstance(p, ast.Tuple) and isinstance(cfg.parent.get(id(p)), ast.Return):
+                        s.roles.append(('returned', m, p))
+        sites.append(s)
+    return sites
+
+
+def _call_role(world: World, fi: FunctionInfo, call: ast.Call, argidx: int) -> str:
+    name = dotted(call.func) or ''
+    if name == 'run_tape' and argidx == 0:
+        return 'exec'
+    hc = None
+    if isinstance(call.func, ast.Name):
+        fr = world.resolve_call(fi, call)
+        if fr is not None and fr.module == 'functions' and fr.name in world.handlers:
+            hc = fr
+    if hc is not None and argidx == 0:
+        return 'operand'
+    if name in ('run_plugins', 'run_sig_extensions'):
+        return 'plugin'
+    if name == 'set_tape_flags':
+        return 'exec'
+    return 'other'
